@@ -242,6 +242,18 @@ class _Canon(ast.NodeTransformer):
             n.body, n.orelse = n.orelse, n.body
         return n
 
+    def visit_DictComp(self, n):
+        # {k: v for k, v in zip(A, B)}  ->  dict(zip(A, B))
+        self.generic_visit(n)
+        if len(n.generators) == 1 and not n.generators[0].ifs and not n.generators[0].is_async:
+            g = n.generators[0]
+            if isinstance(g.target, ast.Tuple) and len(g.target.elts) == 2 and all(isinstance(t, ast.Name) for t in g.target.elts) and isinstance(n.key, ast.Name) and isinstance(n.value, ast.Name) \
+                    and n.key.id == g.target.elts[0].id and n.value.id == g.target.elts[1].id and n.key.id != n.value.id \
+                    and isinstance(g.iter, ast.Call) and isinstance(g.iter.func, ast.Name) and g.iter.func.id == "zip" and len(g.iter.args) == 2 and not g.iter.keywords \
+                    and not any(isinstance(a, ast.Starred) for a in g.iter.args):
+                return ast.copy_location(ast.Call(func=ast.Name(id="dict", ctx=ast.Load()), args=[g.iter], keywords=[]), n)
+        return n
+
     def visit_comprehension(self, n):
         self.generic_visit(n)
         n.ifs = [self._test(i) for i in n.ifs]
